@@ -467,3 +467,39 @@ def g_c11(rng, tier, budget):
 
 
 GENERATORS.update({"C19": g_c19, "C12": g_c12, "C11": g_c11})
+
+
+# ---------------------------------------------------------------------------------------
+# C14: prefilter state machine (F1), documented panic of the packed-pair finders
+
+def gen_prestate(rng, tier, budget):
+    M = 2 ** 32 - 1
+    # the state reached after 2^29 prefilter calls on a >= 4 GiB candidate-free prefix followed by
+    # dense candidates (DESIGN section 10, F1): skips = 2^29 + 1, skipped saturated
+    yield ("prestate %d %d e" % (2 ** 29 + 1, M), dict(family="prestate-f1", domain="in"))
+    yield ("prestate %d %d e,u0,e" % (2 ** 29, M), dict(family="prestate-f1", domain="in"))
+    yield ("prestate %d %d e" % (M, M), dict(family="prestate-sat", domain="in"))
+    yield ("prestate %d %d u5,e" % (M, M), dict(family="prestate-sat", domain="in"))
+    for _ in range(300 if tier == "quick" else 3000):
+        skips = rng.choice([0, 1, 2, 49, 50, 51, 52, 100, 2 ** 29 - 1, 2 ** 29, 2 ** 29 + 1, 2 ** 31, M - 1, M, rng.randrange(M)])
+        skipped = rng.choice([0, 1, 7, 8, 399, 400, 401, 408, 2 ** 31, M - 1, M, rng.randrange(M)])
+        ops = []
+        for _ in range(rng.randrange(1, 80)):
+            if rng.random() < 0.5:
+                ops.append("e")
+            else:
+                ops.append("u%d" % rng.choice([0, 1, 7, 8, 9, 100, 2 ** 32 - 1, 2 ** 32, 2 ** 40, rng.randrange(64)]))
+        yield ("prestate %d %d %s" % (skips, skipped, ",".join(ops)), dict(family="prestate", domain="in"))
+    # from the initial state: drive between effective and inert (>= 50 calls with < 8 bytes avg)
+    for avg in (0, 3, 7, 8, 9, 50):
+        ops = []
+        for i in range(120):
+            ops += ["e", "u%d" % avg]
+        yield ("prestate 1 0 %s" % ",".join(ops), dict(family="prestate-history", domain="in"))
+
+
+def g_c14(rng, tier, budget):
+    yield from gen_prestate(rng, tier, budget)
+
+
+GENERATORS.update({"C14": g_c14})
